@@ -37,6 +37,35 @@ GROUP_CODES = {"JoinGroup": [14, 15, 16, 25], "SyncGroup": [15, 16, 22, 25, 27],
                "OffsetCommit": [14, 15, 16, 22, 25, 27, 7], "FindCoordinator": [15], "OffsetFetch": [14, 16]}
 
 
+def txn_shape(rng, nrec):
+    """A log written by two transactional producers and a plain one, every transaction decided (LSO = log end).
+    -> (shape for simcluster.build_log, offsets a read_committed consumer must never be handed: the markers and the
+    records of aborted transactions)"""
+    shape, hidden, off, nd, open_t = [], [], 0, 0, {}
+    while nd < nrec or open_t:
+        if open_t and (nd >= nrec or rng.random() < 0.4):
+            pid = rng.choice(sorted(open_t))
+            kind = rng.choice(["commit", "abort"])
+            shape.append(dict(kind=kind, off=off, pid=pid))
+            hidden.append(off)
+            if kind == "abort":
+                hidden += open_t[pid]
+            del open_t[pid]
+            off += 1
+            continue
+        n = rng.randrange(1, 3)
+        offs = list(range(off, off + n))
+        b = dict(kind="data", offs=offs, last=offs[-1], base=off, magic=2)
+        pid = rng.choice([7, 8, 8, None])
+        if pid is not None:
+            b.update(pid=pid, txnl=True)
+            open_t.setdefault(pid, []).extend(offs)
+        shape.append(b)
+        off += n
+        nd += n
+    return shape, sorted(hidden)
+
+
 def run_scenario(sc: dict):
     from aiokafka import AIOKafkaConsumer, ConsumerRebalanceListener
     from aiokafka.consumer.fetcher import FetchResult
@@ -54,9 +83,15 @@ def run_scenario(sc: dict):
     log = observe.EventLog()
     director = FaultDirector(rng, sc.get("faults", {}))
     cl = simcluster.Cluster(log, nodes=tuple(range(sc["nnodes"])), director=director, rng=rng)
+    hidden = {}
     for t, n in sc["topics"].items():
         cl.add_topic(t, [rng.randrange(sc["nnodes"]) for _ in range(n)])
         for p in range(n):
+            if sc.get("txnlog"):
+                shape, hid = txn_shape(rng, sc["loglen"])
+                hidden[f"{t}-{p}"] = hid
+                simcluster.build_log(cl.parts[(t, p)], shape)
+                continue
             simcluster.build_log(cl.parts[(t, p)], [dict(kind="data", offs=list(range(sc["loglen"])),
                                                          last=sc["loglen"] - 1, base=0)] if sc["loglen"] else [])
     gsim = simgroup.GroupCoordinatorSim(cl)
@@ -130,7 +165,8 @@ def run_scenario(sc: dict):
             metadata_max_age_ms=sc.get("metadata_max_age_ms", 4000),
             enable_auto_commit=spec.get("auto_commit", True), auto_commit_interval_ms=spec.get("commit_interval_ms", 900),
             partition_assignment_strategy=tuple(ASSIGNORS[a] for a in spec["assignors"]), fetch_max_wait_ms=100,
-            max_poll_records=spec.get("max_poll_records"))
+            max_poll_records=spec.get("max_poll_records"),
+            isolation_level="read_committed" if sc.get("txnlog") else "read_uncommitted")
         ref[0] = cons
         consumers[name] = cons
         cons.subscribe(spec["subs"], listener=Listener(name, ref, spec.get("listener_sleep", 0)))
@@ -178,7 +214,7 @@ def run_scenario(sc: dict):
         log.emit("Config", clients=[f"c{i}" for i in range(len(sc["members"]))],
                  assignors={f"c{i}": m["assignors"] for i, m in enumerate(sc["members"])},
                  subs=subs, parts={t: [f"{t}-{p}" for p in range(n)] for t, n in sc["topics"].items()},
-                 loglen=sc["loglen"], join_max=sc.get("join_max", 5), request_ms=REQUEST_MS,
+                 loglen=sc["loglen"], join_max=sc.get("join_max", 5), request_ms=REQUEST_MS, hidden=hidden,
                  topic_of={f"{t}-{p}": t for t, n in sc["topics"].items() for p in range(n + len(sc.get("grow", [])) + (1 if sc.get("grow_at_sync") else 0))})
         tasks = {}
         for i, m in enumerate(sc["members"]):
